@@ -70,35 +70,58 @@ def universes(draw):
 
 def run_optimiser(case):
     q = load()
-    w = dict(case['weights'])
-    got = q.FixedWeightPortfolioOptimiser()(T0, initial_weights=dict(w))
-    if got != w or list(got) != list(w):
-        raise Violation('fixed-weight optimiser changed %s into %s' % (w, got))
     scale = case['scale']
+    fixed = q.FixedWeightPortfolioOptimiser()
     if scale == 'default':
         opt = q.EqualWeightPortfolioOptimiser()
         scale = 1.0
     else:
         opt = q.EqualWeightPortfolioOptimiser(scale=scale)
-    got = opt(T0, initial_weights=dict(w))
-    if set(got) != set(w) or len(got) != len(w):
-        raise Violation('equal-weight optimiser returned keys %s for %s' % (sorted(got), sorted(w)))
-    n = len(w)
-    for a, v in got.items():
-        if abs(v - scale / n) > 1e-12 * abs(scale):
-            raise Violation('equal weight of %s is %r, scale/N = %r/%d = %r' % (a, v, scale, n, scale / n))
-    if abs(math.fsum(got.values()) - scale) > 1e-12 * abs(scale) * n:
-        raise Violation('equal weights sum to %r, scale is %r' % (math.fsum(got.values()), scale))
-    cls = ['n_%d' % min(n, 4), 'default_scale' if case['scale'] == 'default' else 'explicit_scale']
-    return Result(cls, nontrivial=n >= 2)
+    cls = ['default_scale' if case['scale'] == 'default' else 'explicit_scale']
+    nt = False
+    prev = None
+    # the same optimiser instances serve every weight dict of the case, as in a session
+    for w in [case['weights']] + list(case.get('more', [])):
+        w = dict(w)
+        got = fixed(T0, initial_weights=dict(w))
+        if got != w or list(got) != list(w):
+            raise Violation('fixed-weight optimiser changed %s into %s' % (w, got))
+        got = opt(T0, initial_weights=dict(w))
+        if set(got) != set(w) or len(got) != len(w):
+            raise Violation('equal-weight optimiser returned keys %s for %s%s' % (
+                sorted(got), sorted(w), '' if prev is None else ' (previous call: %s)' % sorted(prev)))
+        n = len(w)
+        for a, v in got.items():
+            if abs(v - scale / n) > 1e-12 * abs(scale):
+                raise Violation('equal weight of %s is %r, scale/N = %r/%d = %r' % (a, v, scale, n, scale / n))
+        if abs(math.fsum(got.values()) - scale) > 1e-12 * abs(scale) * n:
+            raise Violation('equal weights sum to %r, scale is %r' % (math.fsum(got.values()), scale))
+        cls.append('n_%d' % min(n, 4))
+        if prev is not None:
+            cls.append('optimiser_reused')
+            if len(prev) == n and set(prev) != set(w):
+                cls.append('same_size_other_assets')
+        nt = nt or n >= 2
+        prev = w
+    return Result(sorted(set(cls)), nontrivial=nt)
+
+
+_wval = st.one_of(st.floats(-2, 2).map(lambda x: float('%.4g' % x)), st.sampled_from([0.0, 1.0, -1.0]))
 
 
 @st.composite
 def optimisers(draw):
     assets = draw(st.lists(st.sampled_from(kit.ASSET_POOL), min_size=1, max_size=8, unique=True))
-    w = {a: draw(st.one_of(st.floats(-2, 2).map(lambda x: float('%.4g' % x)), st.sampled_from([0.0, 1.0, -1.0]))) for a in assets}
-    return {'weights': w, 'scale': draw(st.one_of(st.sampled_from(['default', 1.0, 2.0, 0.5]),
-                                                  st.floats(0.01, 10).map(lambda x: float('%.4g' % x))))}
+    w = {a: draw(_wval) for a in assets}
+    more = []
+    for _ in range(draw(st.sampled_from([0, 0, 1, 2, 3]))):
+        if draw(st.booleans()):          # same size, other assets
+            other = draw(st.lists(st.sampled_from(kit.ASSET_POOL), min_size=len(assets), max_size=len(assets), unique=True))
+        else:
+            other = draw(st.lists(st.sampled_from(kit.ASSET_POOL), min_size=1, max_size=8, unique=True))
+        more.append({a: draw(_wval) for a in other})
+    return {'weights': w, 'more': more, 'scale': draw(st.one_of(st.sampled_from(['default', 1.0, 2.0, 0.5]),
+                                                                  st.floats(0.01, 10).map(lambda x: float('%.4g' % x))))}
 
 
 def run_sess(case):
